@@ -1103,3 +1103,51 @@ def ops_in_blocks(f, blocks, call_rx=None):
             if call_rx is None or re.search(call_rx, nm):
                 got.add("call:" + nm.rsplit("::", 1)[-1])
     return got
+
+
+NOISE_TOKENS = {"call", "arg", "var", "const", "agg", "tmp", "fn", "deref", "branch", "into", "from", "as_ref", "clone", "copied", "cloned",
+                "self", "tuple", "closure", "std", "core", "fuel_tx", "fuel_vm", "fuel_types", "fuel_asm", "impl", "num", "usize", "u64", "u32", "u16", "u8",
+                "Not", "disc", "Continue", "Some", "Ok", "unwrap_or_default", "map_err", "ok_or", "try_from", "try_into", "IntToInt", "cast"}
+
+
+def leaves(desc):
+    """Order-free token set of a description (identifiers only, noise removed)."""
+    toks = set(t for t in re.findall(r"[A-Za-z_][A-Za-z0-9_]*", desc) if t not in NOISE_TOKENS)
+    toks |= set("#" + n for n in re.findall(r"const:(-?\d+)", desc))
+    return sorted(toks)
+
+
+def controlling_guard(f, cfg, block):
+    """Nearest conditional on which `block` is control dependent, described semantically.
+    Returns dict(kind=cmp|bool|disc|none, ...) ; for cmp: region of (a vs b) on the side that
+    reaches `block`, plus leaf-token sets of both operands."""
+    dom = cfg.dominators()
+    cands = [d for d in dom.get(block, ()) if d != block and f["bbs"][d]["t"][0] == "switch"]
+    # nearest = the dominator with the largest dominator set
+    cands.sort(key=lambda d: len(dom[d]), reverse=True)
+    for d in cands:
+        t = f["bbs"][d]["t"]
+        succ = cfg.succ[d]
+        sides = [s for s in set(succ) if block in cfg.reachable_incl(s)]
+        if len(sides) == len(set(succ)):
+            continue          # reached from every side: not control dependent on d
+        tt = bool_switch_targets(t)
+        if tt:
+            on_true = tt[0] in sides
+            for g in guards(f):
+                if g["bb"] == d:
+                    reg = set(CMP_REGION[g["op"]])
+                    # g['t'] is the branch taken when (a op b) holds (negation already folded in)
+                    side_region = reg if (g["t"] in sides) else ALL_ORD - reg
+                    a, b = leaves(g["a_desc"]), leaves(g["b_desc"])
+                    if a > b:
+                        a, b = b, a
+                        side_region = {FLIP[x] for x in side_region}
+                    return {"kind": "cmp", "bb": d, "region": "".join(sorted(side_region)), "a": a, "b": b}
+            desc = describe(f, t[1], depth=12)
+            neg = desc.startswith("Not(")
+            return {"kind": "bool", "bb": d, "when": (not on_true) if neg else on_true, "tokens": leaves(desc)}
+        desc = describe(f, t[1], depth=10)
+        vals = sorted(str(v) for v, tg in t[2] if tg in sides) + (["_"] if t[3] in sides else [])
+        return {"kind": "disc", "bb": d, "values": vals, "tokens": leaves(desc)}
+    return {"kind": "none"}
